@@ -599,6 +599,19 @@ class World:  # pylint: disable=too-many-instance-attributes,too-many-public-met
             key = self.model_key(side, j)
             if key is not None and key not in present:
                 present.append(key)
+        if op.get('last_indexed'):
+            # "undo": the objects indexed most recently (observed in the index, not predicted)
+            import sqlite3  # pylint: disable=import-outside-toplevel
+
+            with SIM.quiet():
+                conn = sqlite3.connect(os.path.join(side.folder, 'packs.idx'))
+                try:
+                    rows = conn.execute('SELECT hashkey FROM db_object ORDER BY id DESC LIMIT ?', (int(op['last_indexed']),)).fetchall()
+                finally:
+                    conn.close()
+            for (key,) in rows:
+                if key in side.model and key not in present:
+                    present.append(key)
         if op.get('mass_range'):
             # a run of consecutively inserted objects of an earlier mass batch (>= 1000 consecutive index ids)
             mseed, lo, hi = op['mass_range']
@@ -675,11 +688,17 @@ class World:  # pylint: disable=too-many-instance-attributes,too-many-public-met
             arg = list(request)
         recorder = CallbackRecorder() if op.get('callback') else None
         dst_before = dict(dst.model)
+        tmb = op.get('tmb', 104857600)
+        if isinstance(tmb, list):
+            # symbolic budget ['sum', k, delta]: the total size of the first k distinct requested objects (+ delta), so that
+            # "fits", "flush the cache first" and "too big for the cache" all occur within one call, in mixed order
+            sizes = [len(src.model[k]) for k in dict.fromkeys(present)]
+            tmb = max(1, sum(sizes[: tmb[1]]) + tmb[2]) if sizes else 1
         mapping = dstimport = dsth.import_objects(
             arg,
             srch,
             compress=bool(op.get('compress', False)),
-            target_memory_bytes=op.get('tmb', 104857600),
+            target_memory_bytes=tmb,
             callback=recorder,
             do_fsync=bool(op.get('do_fsync', True)),
         )
